@@ -301,7 +301,10 @@ func commandLoop(c *ctl, actor string, x *stack.Actor, rt bool) {
 		sched.Block("await-command", nil, func() bool { return s.cmd != "" })
 		cmd := s.cmd
 		s.cmd = ""
-		if rt {
+		if rt && cmd == "RT:respond" && s.last != nil && s.last.ReqID != "" {
+			x.Response(s.last.ReqID, []byte(`"done"`))
+			s.last = x.Next()
+		} else if rt {
 			s.last = x.Next()
 		} else {
 			s.last = perform(x, cmd)
@@ -487,7 +490,7 @@ func runSeq(nExt int, withInt bool, seq []string) (func(), *stack.Config) {
 						if a.external == (len(seq)%3 == 0) {
 							continue // in a third of the sequences an internal extension is taken, in the others an external one
 						}
-						if len(seq)%2 == 1 {
+						if (len(seq)%2 == 1) == a.external {
 							// variant: the extension itself, busy with the event (Running), reports the exit error
 							if r, _ := issue(actor, actor+":exiterr:typed"); r == nil || r.Status != 202 {
 								st := -1
@@ -498,6 +501,13 @@ func runSeq(nExt int, withInt bool, seq []string) (func(), *stack.Config) {
 								break
 							}
 						} else {
+							// everybody else who got the event polls again, so that the first invocation can complete
+							for _, other := range m.order {
+								so := c.slots[other]
+								if other != actor && m.agents[other].st == agParked && !so.busy && so.last != nil && so.last.Status == 200 && stack.EventType(so.last) == "INVOKE" {
+									issue(other, other+":next")
+								}
+							}
 							if _, blocked := issue(actor, actor+":next"); !blocked {
 								mism = append(mism, fmt.Sprintf("completion: %s's second next did not park", actor))
 								break
@@ -507,6 +517,8 @@ func runSeq(nExt int, withInt bool, seq []string) (func(), *stack.Config) {
 								mism = append(mism, fmt.Sprintf("completion: %s's exit error during its parked second next got status %d (%s), expected 202", actor, r.Status, etype(r.Body)))
 								break
 							}
+							// the runtime answers the first invocation and polls again; the next invocation releases whoever is parked
+							issue("RT", "RT:respond")
 							sched.Go("client2", func() { defer stack.QuietExit(); w.ServerInvoke([]byte(`{"final":2}`)) })
 							sched.WaitQuiet()
 						}
